@@ -27,6 +27,7 @@ type Query struct {
 	Output  string
 	Script  string
 	ScriptG string
+	ScriptsPart []string
 	Hints   map[string][]*Term
 	Names   []string
 	MNames  []string
